@@ -4,10 +4,11 @@ CONSTANTS
   MaxActs = 1
   Engines = 2
   RefLevel = "small"
-  Places = {"global", "closure", "list", "box", "hash", "cont", "host"}
+  Places = {"global"}
   Derive = TRUE
   Pair = FALSE
   Defects = {"shared_stack"}
-  EmitCases = TRUE
-INVARIANTS TypeOK Emit
+  EmitCases = FALSE
+INVARIANTS InvFaithful
 CHECK_DEADLOCK FALSE
+VIEW DesignView
